@@ -38,6 +38,9 @@ let rec ex = function
   | L [A "wsav"; A i; A c; e] -> wsa_via (ni i) (ni c) (ex e)
   | L [A "leafr"; A i; A l] -> LeafR (ni i, ni l)
   | L [A "stopif"] -> StopIf
+  | L [A "leafc"; A i] -> LeafC (ni i)
+  | L [A "alloc"; e] -> Un (UAllocate, ex e)
+  | L [A "walloc"; A a; e] -> Un (UWithAlloc (ni a), ex e)
   | L [A "lvss"; A now; e] -> Un (ULetSS (now = "1"), ex e)
   | L [A "repeat"; A bits; e] ->
     Un (URepeat (List.filter_map (fun c -> if c = '1' then Some true else if c = '0' then Some false else None)
@@ -76,12 +79,15 @@ let render = function
   | XT (TReqStop (id, _)) -> Printf.sprintf "reqstop %d" (int_of_nat id)
   | XT (TPred b) -> "pred " ^ b01 b
   | XT (TGate b) -> "gate " ^ b01 b
+  | XT (TAlloc a) -> Printf.sprintf "alloc %d" (int_of_nat a)
+  | XT (TFree a) -> Printf.sprintf "free %d" (int_of_nat a)
   | XT (TLeafStop id) -> Printf.sprintf "stopseen %d" (int_of_nat id)
   | XT (TCall (f, x)) -> Printf.sprintf "call %s %s" (str_fn f) (i x)
   | XT (TLeak r) -> Printf.sprintf "leak %s" (b01 r)
   | XRoot (o, n, cx) -> Printf.sprintf "root %s regs=%d ctx=%d" (str_out o) (int_of_nat n) (int_of_nat cx)
   | XT (TLeafDtor id) -> Printf.sprintf "dtor %d" (int_of_nat id)
   | XRootDtor -> "root_dtor"
+  | XConnectThrow -> "connect_throw"
   | XSkip -> "skip"
 (* script tokens: L<id>:<k><val>[@ctx]  S[@ctx]  R<ctx> *)
 let script_of toks = List.map (fun t ->
